@@ -406,3 +406,105 @@ func c13GroupIsolated(c *Ctx) {
 		c.deferredBody("gen:"+g.Name+"/", body)
 	}
 }
+
+// hasNextAbsentIsFalse: in multipartResponseAggregator.flush a payload without a HasNext member is a final payload: wherever
+// `*X.HasNext` is merged with a constant (the short-circuit of `X.HasNext != nil && *X.HasNext`), the constant is false.
+// (true would write the separating boundary after a plain, non-deferred response and the closing boundary would never be sent.)
+func hasNextAbsentIsFalse(c *Ctx) {
+	c.R.Rule("hasnext-absent-is-false", "multipartResponseAggregator.flush: every boolean merged (phi) with a load of *X.HasNext is the constant false — an absent hasNext means the payload is final", 2)
+	fn := c.W.Func(pkgTransport, "*multipartResponseAggregator.flush")
+	if fn == nil {
+		c.R.Fail("unresolved anchor: transport.(*multipartResponseAggregator).flush")
+		return
+	}
+	isHasNextLoad := func(v ssa.Value) bool {
+		u, ok := v.(*ssa.UnOp)
+		if !ok || u.Op != token.MUL {
+			return false
+		}
+		fa, ok := loadAddr(u.X).(*ssa.FieldAddr)
+		return ok && fieldNameOf(fa) == "HasNext"
+	}
+	n := 0
+	for _, b := range fn.Blocks {
+		for _, in := range b.Instrs {
+			phi, ok := in.(*ssa.Phi)
+			if !ok {
+				continue
+			}
+			has := false
+			for _, e := range phi.Edges {
+				if isHasNextLoad(e) {
+					has = true
+				}
+			}
+			if !has {
+				continue
+			}
+			n++
+			ok = true
+			for _, e := range phi.Edges {
+				if k, isC := e.(*ssa.Const); isC && k.Value != nil && k.Value.Kind() == constant.Bool && constant.BoolVal(k.Value) {
+					ok = false
+				}
+			}
+			c.R.Check(ok, sprintf("flush/hasNext-merge#%d", n), c.pos(phi.Pos()), "absent hasNext counts as false",
+				"a payload without hasNext is treated as hasNext:true: a response without @defer sent as multipart/mixed is followed by a separating boundary and the closing boundary never appears")
+		}
+	}
+	if n < 2 {
+		c.R.Fail("hasnext-absent-is-false: %d merges of *HasNext found", n)
+	}
+}
+
+// streamLoopExits: a transport's loop around the response handler (`for { r := responses(ctx); if r == nil { break }; … }`) is
+// left only on the handler's nil result: every conditional exit of such a loop tests exactly `result == nil`.  Any other
+// exit condition (on the payload's data, errors, …) drops that payload and every later one.
+func streamLoopExits(c *Ctx) {
+	c.R.Rule("stream-loop-exits-on-nil", "package transport: a loop that calls the graphql.ResponseHandler is left only from a test `result == nil` of that call's result (or by return after a failed write)", 3)
+	n := 0
+	for _, fn := range transportFuncs(c) {
+		for _, l := range an.Loops(fn) {
+			var hcall ssa.Value
+			for b := range l.Blocks {
+				for _, in := range b.Instrs {
+					call, ok := in.(*ssa.Call)
+					if !ok || call.Call.IsInvoke() || call.Call.StaticCallee() != nil {
+						continue
+					}
+					if an.NamedIs(call.Call.Value.Type(), pkgGraphql, "ResponseHandler") {
+						hcall = call
+					}
+				}
+			}
+			if hcall == nil {
+				continue
+			}
+			n++
+			var bad ssa.Instruction
+			for _, e := range l.Exits {
+				if len(e.From.Instrs) == 0 {
+					continue
+				}
+				iff, ok := e.From.Instrs[len(e.From.Instrs)-1].(*ssa.If)
+				if !ok {
+					continue
+				}
+				bo, ok := iff.Cond.(*ssa.BinOp)
+				okExit := ok && (bo.Op == token.EQL || bo.Op == token.NEQ) && (an.Strip(bo.X) == hcall || an.SameVar(bo.X, hcall)) && an.IsNilConst(bo.Y)
+				if !okExit {
+					bad = iff
+				}
+			}
+			pos := c.pos(fn.Pos())
+			if bad != nil {
+				pos = c.ipos(bad)
+			}
+			c.R.Check(bad == nil, shortFn(topFn(fn))+"/response-loop", pos, "left only when the handler returns nil",
+				"the response loop is also left on a condition other than `response == nil`: a payload that meets it (an error-only payload without data, …) and every later payload are dropped, and the stream ends early")
+		}
+	}
+	if n < 3 {
+		c.R.Fail("stream-loop-exits-on-nil: %d response loops found", n)
+	}
+}
